@@ -4,21 +4,20 @@ import PyGam.Drv.TermParse
 namespace PyGam.Drv.C12
 open PyGam PyGam.Drv PyGam.Inv
 
-def toMat (rows cols : Nat) (l : List Rat) : Nat → Nat → Rat :=
-  let a := l.toArray
-  fun i j => if i < rows ∧ j < cols then a[i * cols + j]! else 0
+/-! Tables are built as arrays *first* and only then wrapped (`ofMat a`, `ofVec a` are partial applications holding the
+finished array): a definition `def f … : Nat → α := let a := …; fun i => a[i]!` would be compiled with the index as an
+extra argument and rebuild the array on every access. -/
 
-def toVec (l : List Rat) : Nat → Rat :=
+def mkMat (rows cols : Nat) (l : List Rat) : Array (Array Rat) :=
   let a := l.toArray
-  fun i => a[i]!
+  (Array.range rows).map (fun i => (Array.range cols).map (fun j => a[i * cols + j]!))
 
-def toVecN (l : List Nat) : Nat → Nat :=
-  let a := l.toArray
-  fun i => a[i]!
+def ofMat (a : Array (Array Rat)) (i j : Nat) : Rat := a[i]![j]!
+def ofVec (a : Array Rat) (i : Nat) : Rat := a[i]!
+def ofVecN (a : Array Nat) (i : Nat) : Nat := a[i]!
+def ofFlags (a : Array Bool) (i : Nat) : Bool := a[i]!
 
-def flags (l : List String) : Nat → Bool :=
-  let a := (l.map (fun s => s == "1")).toArray
-  fun i => a[i]!
+def mkFlags (l : List String) : Array Bool := (l.map (fun s => s == "1")).toArray
 
 def ratAbs (x : Rat) : Rat := if x < 0 then 0 - x else x
 
@@ -32,17 +31,13 @@ def vecEq (n : Nat) (u v : Nat → Rat) : Bool := (List.range n).all (fun i => u
 
 def zeroMat : Nat → Nat → Rat := fun _ _ => 0
 
-/-- tabulate an `m × m` function once (the model definitions are re-evaluated on every access otherwise) -/
-def tabMat (n m : Nat) (X : Nat → Nat → Rat) : Nat → Nat → Rat :=
-  let a := (Array.range n).map (fun i => (Array.range m).map (fun j => X i j))
-  fun i j => a[i]![j]!
+/-- tabulate a function once (the model definitions are re-evaluated on every access otherwise) -/
+def tabMat (n m : Nat) (X : Nat → Nat → Rat) : Array (Array Rat) :=
+  (Array.range n).map (fun i => (Array.range m).map (fun j => X i j))
 
-def tabVec (n : Nat) (v : Nat → Rat) : Nat → Rat :=
-  let a := (Array.range n).map v
-  fun i => a[i]!
+def tabVec (n : Nat) (v : Nat → Rat) : Array Rat := (Array.range n).map v
 
-def solveRat (m : Nat) (N : Nat → Nat → Rat) (rhs : Nat → Rat) : Option (Array Rat) :=
-  gaussSolve m ((Array.range m).map (fun i => (Array.range m).map (fun j => N i j))) ((Array.range m).map rhs)
+def solveRat (m : Nat) (N : Array (Array Rat)) (rhs : Array Rat) : Option (Array Rat) := gaussSolve m N rhs
 
 /-- operations of the C12 model driver (`C12 <op> <args…>`); `none` ↦ `bad-op`.  All numbers are exact rationals.
 
@@ -71,7 +66,7 @@ def handle (toks : List String) : Option String :=
         if nCoefsAll terms' ≠ k then none else
         let row := tabVec k (columnsAll epsRat xv terms)
         let row' := tabVec k (columnsAll epsRat (mapRow av bv xv) terms')
-        some (showRat (maxAbsDiff k row row') ++ " | " ++ showRatList (vecToList k row'))
+        some (showRat (maxAbsDiff k (ofVec row) (ofVec row')) ++ " | " ++ showRatList row'.toList)
     | _ => none
   | "normperm" :: n :: m :: rest =>
     match splitBar rest with
@@ -81,14 +76,15 @@ def handle (toks : List String) : Option String :=
         if bl.length ≠ n * m ∨ wl.length ≠ n ∨ zl.length ≠ n ∨ ks.length ≠ n ∨ sl.length ≠ n then none else
         -- σ must be a permutation of range n
         if !((List.range n).all (fun i => sl.contains i)) then none else
-        let B := toMat n m bl; let W2 := toVec wl; let z := toVec zl; let keep := flags ks; let σ := toVecN sl
+        let B := ofMat (mkMat n m bl); let W2 := ofVec wl.toArray; let z := ofVec zl.toArray
+        let keep := ofFlags (mkFlags ks); let σ := ofVecN sl.toArray
         let N := tabMat m m (normalMat n B keep W2 zeroMat)
         let rhs := tabVec m (normalRhs n B keep W2 z)
         let N' := tabMat m m (normalMat n (permRows σ B) (permVecB σ keep) (permVec σ W2) zeroMat)
         let rhs' := tabVec m (normalRhs n (permRows σ B) (permVecB σ keep) (permVec σ W2) (permVec σ z))
-        let ok := matEq m m N N' && vecEq m rhs rhs'
-        some ((if ok then "eq" else "ne") ++ " | " ++ showRatList ((matToLists m m N').flatten) ++ " | "
-              ++ showRatList (vecToList m rhs'))
+        let ok := matEq m m (ofMat N) (ofMat N') && vecEq m (ofVec rhs) (ofVec rhs')
+        some ((if ok then "eq" else "ne") ++ " | " ++ showRatList (N'.toList.map Array.toList).flatten ++ " | "
+              ++ showRatList rhs'.toList)
     | _ => none
   | "normrepl" :: n :: m :: rest =>
     match splitBar rest with
@@ -96,16 +92,19 @@ def handle (toks : List String) : Option String :=
         let n ← n.toNat?; let m ← m.toNat?
         let bl ← parseRats? bs; let ul ← parseRats? us; let zl ← parseRats? zs; let wl ← parseNats? ws
         if bl.length ≠ n * m ∨ ul.length ≠ n ∨ zl.length ≠ n ∨ ks.length ≠ n ∨ wl.length ≠ n then none else
-        let B := toMat n m bl; let u := toVec ul; let z := toVec zl; let keep := flags ks; let w := toVecN wl
+        let B := ofMat (mkMat n m bl); let u := ofVec ul.toArray; let z := ofVec zl.toArray
+        let keep := ofFlags (mkFlags ks); let w := ofVecN wl.toArray
         let idx := replIdx n w
-        let src := replSrc idx
-        let N := tabMat m m (normalMat n B keep (fun r => (w r : Rat) * u r) zeroMat)
-        let rhs := tabVec m (normalRhs n B keep (fun r => (w r : Rat) * u r) z)
+        -- `replSrc idx` (the model's list lookup), tabulated
+        let src := ofVecN ((Array.range idx.length).map (replSrc idx))
+        let wu := ofVec (tabVec n (fun r => (w r : Rat) * u r))
+        let N := tabMat m m (normalMat n B keep wu zeroMat)
+        let rhs := tabVec m (normalRhs n B keep wu z)
         let N' := tabMat m m (normalMat idx.length (permRows src B) (permVecB src keep) (permVec src u) zeroMat)
         let rhs' := tabVec m (normalRhs idx.length (permRows src B) (permVecB src keep) (permVec src u) (permVec src z))
-        let ok := matEq m m N N' && vecEq m rhs rhs'
-        some ((if ok then "eq " else "ne ") ++ toString idx.length ++ " | " ++ showRatList ((matToLists m m N').flatten)
-              ++ " | " ++ showRatList (vecToList m rhs'))
+        let ok := matEq m m (ofMat N) (ofMat N') && vecEq m (ofVec rhs) (ofVec rhs')
+        some ((if ok then "eq " else "ne ") ++ toString idx.length ++ " | " ++ showRatList (N'.toList.map Array.toList).flatten
+              ++ " | " ++ showRatList rhs'.toList)
     | _ => none
   | "lin" :: n :: m :: rest =>
     match splitBar rest with
@@ -114,17 +113,19 @@ def handle (toks : List String) : Option String :=
         let bl ← parseRats? bs; let al ← parseRats? as; let wl ← parseRats? ws
         let y1l ← parseRats? y1s; let y2l ← parseRats? y2s; let c ← parseRat? cs
         if bl.length ≠ n * m ∨ al.length ≠ m * m ∨ wl.length ≠ n ∨ y1l.length ≠ n ∨ y2l.length ≠ n then none else
-        let B := toMat n m bl; let A := toMat m m al; let w := toVec wl; let y1 := toVec y1l; let y2 := toVec y2l
+        let B := ofMat (mkMat n m bl); let A := ofMat (mkMat m m al); let w := ofVec wl.toArray
+        let y1 := ofVec y1l.toArray; let y2 := ofVec y2l.toArray
         let keep : Nat → Bool := fun _ => true
         let N := tabMat m m (normalMat n B keep w A)
         let rhsOf := fun (y : Nat → Rat) => tabVec m (normalRhs n B keep w y)
-        let β1 ← solveRat m N (rhsOf y1)
+        let r1 := rhsOf y1
+        let β1 ← solveRat m N r1
         let β2 ← solveRat m N (rhsOf y2)
-        let β12 ← solveRat m N (rhsOf (fun r => y1 r + y2 r))
-        let βc ← solveRat m N (rhsOf (fun r => c * y1 r))
-        let res0 := vecEq m (mulVec m N (fun j => β1[j]!)) (rhsOf y1)
-        let add := vecEq m (fun j => β12[j]!) (fun j => β1[j]! + β2[j]!)
-        let hom := vecEq m (fun j => βc[j]!) (fun j => c * β1[j]!)
+        let β12 ← solveRat m N (rhsOf (ofVec (tabVec n (fun r => y1 r + y2 r))))
+        let βc ← solveRat m N (rhsOf (ofVec (tabVec n (fun r => c * y1 r))))
+        let res0 := vecEq m (mulVec m (ofMat N) (ofVec β1)) (ofVec r1)
+        let add := vecEq m (ofVec β12) (fun j => ofVec β1 j + ofVec β2 j)
+        let hom := vecEq m (ofVec βc) (fun j => c * ofVec β1 j)
         let f := fun (b : Bool) => if b then "1" else "0"
         some (f res0 ++ " " ++ f add ++ " " ++ f hom ++ " | " ++ showRatList β1.toList)
     | _ => none
